@@ -393,6 +393,13 @@ func (e *Engine) step(p *partition, row map[string]any, ts, seq int64) []map[str
 			}
 			continue
 		}
+		// r is accepting and can still be extended, but the extension may never
+		// become accepting again ((A B)+ after "A B A", A (B C)? after "A B"). Keep
+		// the accepted prefix as a pending completion: ingestPending keeps only the
+		// longest per start and emitGreedy emits once no run of that start survives.
+		if !e.lazy && hasAccept(r.states) {
+			completions = append(completions, r)
+		}
 		for _, s := range succ {
 			if isComplete(s.states) {
 				completions = append(completions, s)
